@@ -62,7 +62,11 @@ struct Item { kind: &'static str, sexp: String, sw: String, test: String }
 fn worker(dir: &str, release: bool) -> i32 {
     let d = std::path::PathBuf::from(dir);
     let dd = d.clone();
-    quiet_panics();
+    std::panic::set_hook(Box::new(|info| {
+        let loc = info.location().map(|l| format!("{}:{}", l.file(), l.line())).unwrap_or_default();
+        let msg = info.payload().downcast_ref::<&str>().map(|s| s.to_string()).or_else(|| info.payload().downcast_ref::<String>().cloned()).unwrap_or_default();
+        println!("!PANIC at {loc}: {}", msg.replace('\n', " "));
+    }));
     let built = guarded(move || build_and_test(&dd, release).map(|x| x.0)).unwrap_or_else(|| Err(anyhow::anyhow!("COMPILER PANIC")));
     match built {
         Ok(outs) => { for o in outs { println!("{} {}", o.name, outcome_str(&o)); } 0 }
@@ -93,24 +97,33 @@ fn run_pkg(items: &[&Item], tag: &str, dump: &Option<String>) -> Result<BTreeMap
             .stdout(f).stderr(std::process::Stdio::null()).spawn().map_err(|e| e.to_string())?;
         kids.push((release, d, outf, child));
     }
-    let deadline = std::time::Instant::now() + pkg_timeout(items.len());
+    let t_start = std::time::Instant::now();
+    let mut deadline = t_start + pkg_timeout(items.len());
     let mut res: BTreeMap<String, (String, String)> = BTreeMap::new();
     let mut err = None;
-    for (release, d, outf, mut child) in kids {
-        let status = loop {
-            match child.try_wait() {
-                Ok(Some(st)) => break Some(st),
-                Ok(None) => {
-                    if std::time::Instant::now() > deadline { let _ = child.kill(); let _ = child.wait(); break None; }
-                    std::thread::sleep(std::time::Duration::from_millis(100));
+    // wait for both workers; once one profile is done the other gets 4x its time + 90 s (a compiler hang must
+    // not cost the full budget)
+    let mut status: Vec<Option<Option<std::process::ExitStatus>>> = vec![None, None];
+    while status.iter().any(|s| s.is_none()) {
+        for (k, kid) in kids.iter_mut().enumerate() {
+            if status[k].is_some() { continue; }
+            match kid.3.try_wait() {
+                Ok(Some(st)) => {
+                    status[k] = Some(Some(st));
+                    let adaptive = std::time::Instant::now() + t_start.elapsed() * 4 + std::time::Duration::from_secs(90);
+                    if adaptive < deadline { deadline = adaptive; }
                 }
-                Err(_) => break None,
+                Ok(None) => if std::time::Instant::now() > deadline { let _ = kid.3.kill(); let _ = kid.3.wait(); status[k] = Some(None); },
+                Err(_) => status[k] = Some(None),
             }
-        };
+        }
+        std::thread::sleep(std::time::Duration::from_millis(100));
+    }
+    for ((release, d, outf, _child), status) in kids.into_iter().zip(status.into_iter().map(|s| s.unwrap())) {
         let text = std::fs::read_to_string(&outf).unwrap_or_default();
         let _ = std::fs::remove_dir_all(&d);
         match status {
-            None => { err.get_or_insert(format!("release={release} COMPILER HANG (killed after {:?})", pkg_timeout(items.len()))); }
+            None => { err.get_or_insert(format!("release={release} COMPILER HANG (killed after {:?})", t_start.elapsed())); }
             Some(st) if !st.success() => { err.get_or_insert(format!("release={release} worker {st}: {}", text.chars().take(3000).collect::<String>())); }
             Some(_) => for l in text.lines() {
                 if let Some((name, o)) = l.split_once(' ') {
@@ -143,6 +156,159 @@ fn run_batch(items: &[&Item], tag: &str, dump: &Option<String>, out: &mut BTreeM
     }
 }
 
+
+// ------------------------------------------------------------------------------------------ e2e scripts
+
+const E2E_ROOT: &str = "/repo/test/src/e2e_vm_tests/test_programs/should_pass/language";
+
+/// e2e `run` scripts that depend only on std by path, take no script data and have a plain expected result.
+fn e2e_candidates() -> Vec<(String, std::path::PathBuf, String)> {
+    let mut out = vec![];
+    let mut dirs: Vec<_> = std::fs::read_dir(E2E_ROOT).map(|d| d.filter_map(|e| e.ok()).map(|e| e.path()).collect()).unwrap_or_default();
+    dirs.sort();
+    for d in dirs {
+        let (Ok(tt), Ok(ft), Ok(src)) = (std::fs::read_to_string(d.join("test.toml")), std::fs::read_to_string(d.join("Forc.toml")), std::fs::read_to_string(d.join("src/main.sw"))) else { continue };
+        let (Ok(t), Ok(f)) = (tt.parse::<toml::Value>(), ft.parse::<toml::Value>()) else { continue };
+        if t.get("category").and_then(|c| c.as_str()) != Some("run") { continue; }
+        if t.get("script_data").is_some() || t.get("script_data_new_encoding").is_some() || t.get("witness_data").is_some() || t.get("experimental").is_some() || t.get("unsupported_profiles").is_some() { continue; }
+        if !src.trim_start().starts_with("script;") { continue; }
+        // dependencies: exactly `std` by a path that ends in sway-lib-std
+        let deps = f.get("dependencies").and_then(|d| d.as_table()).cloned().unwrap_or_default();
+        if deps.len() != 1 { continue; }
+        let Some(p) = deps.get("std").and_then(|s| s.get("path")).and_then(|p| p.as_str()) else { continue };
+        if !p.ends_with("sway-lib-std") { continue; }
+        if f.get("contract-dependencies").is_some() || f.get("patch").is_some() { continue; }
+        // expected result (new encoding is the default of this tree)
+        let exp = t.get("expected_result_new_encoding").or_else(|| t.get("expected_result"));
+        let Some(exp) = exp else { continue };
+        let expected = match (exp.get("action").and_then(|a| a.as_str()), exp.get("value")) {
+            (Some("return_data"), Some(toml::Value::String(h))) => format!("retd:{}", { let x = h.replace(' ', "").to_lowercase(); if x.is_empty() { "-".to_string() } else { x } }),
+            (Some("return"), Some(toml::Value::Integer(v))) => format!("ret:{v}"),
+            (Some("revert"), Some(toml::Value::Integer(v))) => format!("revert:{}", *v as u64),
+            _ => continue,
+        };
+        out.push((d.file_name().unwrap().to_string_lossy().to_string(), d, expected));
+    }
+    out
+}
+
+fn copy_dir(from: &std::path::Path, to: &std::path::Path) -> std::io::Result<()> {
+    std::fs::create_dir_all(to)?;
+    for e in std::fs::read_dir(from)? {
+        let e = e?;
+        let (src, dst) = (e.path(), to.join(e.file_name()));
+        if e.file_type()?.is_dir() { if e.file_name() != "out" { copy_dir(&src, &dst)?; } } else if e.file_name() != "Forc.lock" { std::fs::copy(&src, &dst)?; }
+    }
+    Ok(())
+}
+
+/// `--e2e-worker DIR debug|release`: build the script package with forc-pkg, run it on the VM the way
+/// test/src/e2e_vm_tests/harness.rs `runs_in_vm` does, print `ret:<n>` | `retd:<hex>` | `revert:<code>`.
+fn e2e_worker(dir: &str, release: bool) -> i32 {
+    use fuel_tx::{ConsensusParameters, Finalizable, Receipt, ScriptParameters, TransactionBuilder, TxParameters};
+    use fuel_tx::consensus_parameters::ConsensusParametersV1;
+    use fuel_vm::checked_transaction::builder::TransactionBuilderExt;
+    use fuel_vm::interpreter::{Interpreter, MemoryInstance};
+    use fuel_vm::prelude::SecretKey;
+    use fuel_vm::state::ProgramState;
+    use fuel_vm::storage::MemoryStorage;
+    quiet_panics();
+    let dir = dir.to_string();
+    let run = move || -> anyhow::Result<String> {
+        let opts = forc_pkg::BuildOpts {
+            pkg: forc_pkg::PkgOpts { path: Some(dir.clone()), offline: true, terse: true, locked: false, ..Default::default() },
+            release, no_output: true, ..Default::default()
+        };
+        let built = forc_pkg::build_with_options(&opts, None)?;
+        let pkg = match built { forc_pkg::Built::Package(p) => p, forc_pkg::Built::Workspace(mut v) => v.remove(0) };
+        let max_size = 64 * 1024 * 1024;
+        let params = ConsensusParameters::V1(ConsensusParametersV1 {
+            script_params: ScriptParameters::DEFAULT.with_max_script_length(max_size).with_max_script_data_length(max_size),
+            tx_params: TxParameters::DEFAULT.with_max_size(max_size),
+            ..Default::default()
+        });
+        let mut tb = TransactionBuilder::script(pkg.bytecode.bytes.clone(), vec![]);
+        let secret = SecretKey::try_from(&[7u8; 32][..]).map_err(|e| anyhow::anyhow!("{e:?}"))?;
+        tb.with_params(params).add_unsigned_coin_input(secret, Default::default(), 1, Default::default(), Default::default()).maturity(1.into());
+        let consensus_params = tb.get_params().clone();
+        let dflt = ConsensusParameters::default();
+        let tmp_tx = tb.clone().finalize();
+        use fuel_tx::Chargeable;
+        let max_gas = tmp_tx.max_gas(consensus_params.gas_costs(), consensus_params.fee_params()) + 1;
+        tb.script_gas_limit(consensus_params.tx_params().max_gas_per_tx() - max_gas);
+        let tx = tb.finalize_checked((u32::MAX >> 1).into()).into_ready(0, dflt.gas_costs(), dflt.fee_params(), None).map_err(|e| anyhow::anyhow!("{e:?}"))?;
+        let mut i: Interpreter<_, _, fuel_tx::Script> = Interpreter::with_storage(MemoryInstance::new(), MemoryStorage::default(), Default::default());
+        let transition = i.transact(tx).map_err(|e| anyhow::anyhow!("vm: {e:?}"))?;
+        let receipts = transition.receipts().to_vec();
+        Ok(match *transition.state() {
+            ProgramState::Return(v) => format!("ret:{v}"),
+            ProgramState::ReturnData(d) => {
+                let data = receipts.iter().find(|r| r.digest() == Some(&d)).and_then(|r| r.data().map(|x| x.to_vec())).unwrap_or_default();
+                let _ = Receipt::ret;
+                format!("retd:{}", hexbytes(&data))
+            }
+            ProgramState::Revert(v) => format!("revert:{v}"),
+            _ => "other".into(),
+        })
+    };
+    match guarded(run) {
+        Some(Ok(s)) => { println!("{s}"); 0 }
+        Some(Err(e)) => { println!("builderr {}", format!("{e:#}").replace('\n', " ")); 3 }
+        None => { println!("builderr COMPILER-PANIC"); 3 }
+    }
+}
+
+/// Run `n` seed-chosen e2e scripts in both profiles (all worker processes side by side); returns protocol lines.
+type E2eKid = (String, String, bool, std::path::PathBuf, std::path::PathBuf, Option<std::process::Child>);
+
+fn spawn_e2e(n: usize, r: &mut Rng) -> Vec<E2eKid> {
+    let mut cands = e2e_candidates();
+    let mut chosen = vec![];
+    while chosen.len() < n && !cands.is_empty() { let i = r.below(cands.len() as u64) as usize; chosen.push(cands.swap_remove(i)); }
+    let exe = std::env::current_exe().unwrap();
+    let mut kids = vec![];
+    for (name, dir, expected) in &chosen {
+        for release in [false, true] {
+            let d = scratch_dir(&format!("c01e2e-{name}-{}", if release { "r" } else { "d" }));
+            let ok = copy_dir(dir, &d).is_ok();
+            // absolute std path
+            if let Ok(ft) = std::fs::read_to_string(d.join("Forc.toml")) {
+                let fixed: String = ft.lines().map(|l| if l.trim_start().starts_with("std") && l.contains("path") { format!("std = {{ path = \"{STD_PATH}\" }}") } else { l.to_string() }).collect::<Vec<_>>().join("\n");
+                let _ = std::fs::write(d.join("Forc.toml"), fixed + "\n");
+            }
+            let outf = d.join("worker.out");
+            let child = if ok { std::fs::File::create(&outf).ok().and_then(|f| std::process::Command::new(&exe).arg("--e2e-worker").arg(&d).arg(if release { "release" } else { "debug" }).stdout(f).stderr(std::process::Stdio::null()).spawn().ok()) } else { None };
+            kids.push((name.clone(), expected.clone(), release, d, outf, child));
+        }
+    }
+    kids
+}
+
+fn collect_e2e(kids: Vec<E2eKid>) -> Vec<String> {
+    let deadline = std::time::Instant::now() + pkg_timeout(40);
+    let mut res: BTreeMap<String, (String, String, String)> = BTreeMap::new();
+    for (name, expected, release, d, outf, child) in kids {
+        let mut got = "builderr".to_string();
+        if let Some(mut child) = child {
+            let done = loop {
+                match child.try_wait() {
+                    Ok(Some(_)) => break true,
+                    Ok(None) => { if std::time::Instant::now() > deadline { let _ = child.kill(); let _ = child.wait(); break false; } std::thread::sleep(std::time::Duration::from_millis(100)); }
+                    Err(_) => break false,
+                }
+            };
+            if done { if let Some(l) = std::fs::read_to_string(&outf).unwrap_or_default().lines().next() { got = l.split(' ').next().unwrap_or("builderr").to_string(); if got == "builderr" { eprintln!("sv_c01: e2e {name} release={release}: {l}"); } } }
+        }
+        let _ = std::fs::remove_dir_all(&d);
+        let e = res.entry(name).or_insert((expected, String::new(), String::new()));
+        if release { e.2 = got; } else { e.1 = got; }
+    }
+    res.into_iter().map(|(name, (exp, d, r))| {
+        let class = if d.starts_with("builderr") || r.starts_with("builderr") { "nobytecode" } else if d == r { "same" } else { "differ" };
+        format!("e2e {name} {exp} ;; {class} debug={d} release={r}")
+    }).collect()
+}
+
 fn class_of(d: &str, r: &str) -> &'static str {
     let c = |s: &str| if s.starts_with("ok:") { 0 } else if s.starts_with("revert:") { 1 } else { 2 };
     match (c(d), c(r)) { (0, 0) => "ok", (1, 1) => "revert", (2, _) | (_, 2) => "nobytecode", _ => "differ" }
@@ -164,18 +330,21 @@ fn main() {
         return;
     }
     if v.len() >= 4 && v[1] == "--worker" { std::process::exit(worker(&v[2], v[3] == "release")); }
+    if v.len() >= 4 && v[1] == "--e2e-worker" { std::process::exit(e2e_worker(&v[2], v[3] == "release")); }
     let a = args();
     quiet_panics();
     let seed = seed_from_env();
     let mut dump = None;
     let mut pkg_size = 120usize;
     let mut oob_every = 12usize;
+    let mut e2e = "0".to_string();
     let mut i = 0;
     while i < a.extra.len() {
         match a.extra[i].as_str() {
             "--dump" => { dump = Some(a.extra[i + 1].clone()); i += 2; }
             "--pkg-size" => { pkg_size = a.extra[i + 1].parse().unwrap(); i += 2; }
             "--oob-every" => { oob_every = a.extra[i + 1].parse().unwrap(); i += 2; }
+            "--e2e" => { e2e = a.extra[i + 1].clone(); i += 2; }
             _ => { i += 1; }
         }
     }
@@ -200,6 +369,10 @@ fn main() {
         items.push(Item { kind: if oob { "prog-oob" } else { "prog" }, sexp: p.to_sexp(), sw: p.to_sw(), test: p.test_name() });
     }
     let t0 = std::time::Instant::now();
+    // e2e scripts: `--e2e N` or `--e2e auto` (3 in the quick tier, 24 in the thorough tier); their worker
+    // processes run side by side with the package builds
+    let ne2e = if e2e == "auto" { if std::env::var("VERIF_TIER").as_deref() == Ok("thorough") { 24 } else { 3 } } else { e2e.parse().unwrap_or(0) };
+    let e2e_kids = if ne2e > 0 { spawn_e2e(ne2e, &mut Rng::new(seed ^ 0xE2E)) } else { vec![] };
     let mut res = BTreeMap::new();
     for (pi, chunk) in items.chunks(pkg_size).enumerate() {
         let refs: Vec<&Item> = chunk.iter().collect();
@@ -212,7 +385,10 @@ fn main() {
         let (d, r) = res.get(&it.test).cloned().unwrap_or_else(|| { missing += 1; ("missing".into(), "missing".into()) });
         writeln!(out, "{} {} ;; {} debug={} release={}", it.kind, it.sexp, class_of(&d, &r), d, r).unwrap();
     }
+    if ne2e > 0 {
+        for l in collect_e2e(e2e_kids) { writeln!(out, "{l}").unwrap(); }
+        eprintln!("sv_c01: {ne2e} e2e scripts done at {:?}", t0.elapsed());
+    }
     out.flush().unwrap();
-    let _ = hexbytes(&[]);
     eprintln!("sv_c01: {} programs ({} corpus), {} without result, {:?}", items.len(), ncorpus, missing, t0.elapsed());
 }
